@@ -389,7 +389,7 @@ func r033(c *Ctx) {
 				// the only admissible guard is a nil test of that same slot
 				guardsOK := true
 				for _, ce := range dominatingConds(cs.instr.Block()) {
-					cm, ok := asCmp(ce.cond, ce.taken)
+					cm, ok := ce.asCmp()
 					if !ok || cm.op != token.NEQ || !((isLoadOfField(resolve(cm.x), f) && isNilConst(cm.y)) || (isLoadOfField(resolve(cm.y), f) && isNilConst(cm.x))) {
 						guardsOK = false
 					}
